@@ -48,6 +48,12 @@ def gen_tables(ctx):
     t += f"  max_7z := {N(ae.MAX_7Z_FILE_SIZE)};\n  aes_prefix := {coq_bytes(sz.CODER_AES_PREFIX)};\n"
     t += f"  id_copy := {coq_bytes(sz.CODER_COPY)}; id_lzma := {coq_bytes(sz.CODER_LZMA)}; "
     t += f"id_lzma2 := {coq_bytes(sz.CODER_LZMA2)}; id_bcj := {coq_bytes(sz.CODER_BCJ)}\n|}}.\n"
+    ids = ["PROP_END", "PROP_HEADER", "PROP_ARCHIVE_PROPERTIES", "PROP_ADDITIONAL_STREAMS_INFO", "PROP_MAIN_STREAMS_INFO",
+           "PROP_FILES_INFO", "PROP_PACK_INFO", "PROP_UNPACK_INFO", "PROP_SUBSTREAMS_INFO", "PROP_SIZE", "PROP_CRC",
+           "PROP_FOLDER", "PROP_CODERS_UNPACK_SIZE", "PROP_NUM_UNPACK_STREAM", "PROP_EMPTY_STREAM", "PROP_EMPTY_FILE",
+           "PROP_NAME", "PROP_WIN_ATTRIBUTES", "PROP_ENCODED_HEADER"]
+    t += "\nDefinition prop_ids : list N := " + coq_list([N(getattr(sz, i)) for i in ids]) + ".\n"
+    t += f"Definition magic7 : bytes := {coq_bytes(sz.MAGIC)}.\n"
     ctx.gen_write("Gen/C10Tables.v", t)
 
 
@@ -468,6 +474,132 @@ def case7_term(arch, H, apath, calls, term, listing, new, parsed=True):
                 lst, c_calls(calls), c_term(term)))
 
 
+
+# ----------------------------------------------------------------------------- byte-level header parser cases
+class LzmaProxy:
+    """Stands in for the `lzma` module inside util/sevenzip.py and records every decompressor call."""
+
+    def __init__(self):
+        self.calls = []   # (format, filters, data, result|None)
+
+    def __getattr__(self, k):
+        return getattr(lzma, k)
+
+    def LZMADecompressor(self, format=lzma.FORMAT_AUTO, filters=None, **kw):
+        proxy = self
+
+        class D:
+            def decompress(self_, data, *a):
+                try:
+                    out = lzma.LZMADecompressor(format=format, filters=filters, **kw).decompress(data, *a)
+                except Exception:  # noqa
+                    proxy.calls.append((format, filters, bytes(data), None))
+                    raise
+                proxy.calls.append((format, filters, bytes(data), out))
+                return out
+        return D()
+
+
+def lz_filters(pb):
+    if pb < 40:
+        ds = (2 | (pb & 1)) << (pb // 2 + 11) if pb > 0 else 1 << 12
+        return [{"id": lzma.FILTER_LZMA2, "dict_size": ds}]
+    return [{"id": lzma.FILTER_LZMA2, "preset": 6}]
+
+
+def lz_rows(calls):
+    rows = []
+    for fmt, filters, data, res in calls:
+        r = "DErr" if res is None else f"(DOk {coq_bytes(res)})"
+        if fmt == lzma.FORMAT_ALONE and len(data) >= 13:
+            size = struct.unpack("<Q", data[5:13])[0]
+            sz = None if data[5:13] == b"\xff" * 8 else size
+            rows.append(f"({cN(1)}, {coq_bytes(data[:5])}, {coq_opt(sz, cN)}, {coq_bytes(data[13:])}, {r})")
+        elif fmt == lzma.FORMAT_RAW:
+            for pb in range(256):
+                if lz_filters(pb) == filters:
+                    rows.append(f"({cN(2)}, {coq_bytes(bytes([pb]))}, None, {coq_bytes(data)}, {r})")
+    return coq_list(rows)
+
+
+def impl_parse(arch):
+    """SevenZipReader(file): -> ('Bad'|'Enc'|'skip', None) or ('Ok', view) with the lzma calls it made."""
+    from sharepoint2text.parsing.extractors.util import sevenzip as sz
+    proxy = LzmaProxy()
+    real = sz.lzma
+    sz.lzma = proxy
+    try:
+        try:
+            rd = sz.SevenZipReader(io.BytesIO(arch))
+        except sz.Encrypted7zError:
+            return "Enc", None, proxy.calls
+        except MemoryError:
+            return "skip", None, proxy.calls
+        except Exception:  # noqa
+            return "Bad", None, proxy.calls
+    finally:
+        sz.lzma = real
+    if len(rd._files) > 2000:
+        return "skip", None, proxy.calls
+    pack = None if not rd._pack_positions else (rd._pack_positions[0] - 32, list(rd._pack_sizes))
+    folders = [([(c, p) for c, p in f.coders], list(f.unpack_sizes), f.num_streams) for f in rd._folders]
+    files = [(f.filename, f.uncompressed, f.is_directory, f.attributes) for f in rd._files]
+    return "Ok", (pack, folders, list(rd._file_sizes), files), proxy.calls
+
+
+def parse_case(arch):
+    kind, view, calls = impl_parse(arch)
+    if kind == "skip":
+        return None, kind
+    crcs = [(arch[12:32], zlib.crc32(arch[12:32]) & 0xFFFFFFFF)]
+    if len(arch) >= 32:
+        off, size = struct.unpack("<QQ", arch[12:28])
+        hd = arch[32 + off: 32 + off + size] if off < (1 << 40) and size < (1 << 40) else b""
+        crcs.append((hd, zlib.crc32(hd) & 0xFFFFFFFF))
+    crct = coq_list([f"({coq_bytes(d)}, {cN(c)})" for d, c in crcs])
+    if kind == "Ok":
+        pack, folders, sizes, files = view
+        pk = "None" if pack is None else f"(Some ({cN(pack[0])}, {coq_list([cN(z) for z in pack[1]])}))"
+        fl = coq_list(["(" + coq_list([f"({coq_bytes(c)}, {c_optbytes(p)})" for c, p in cs]) + ", "
+                       + coq_list([cN(u) for u in us]) + f", {cN(n)})" for cs, us, n in folders])
+        fs = coq_list([f"({coq_str(n)}, {cN(z)}, {coq_bool(d)}, {cN(a)})" for n, z, d, a in files])
+        ex = f"(XOk {pk} {fl} {coq_list([cN(z) for z in sizes])} {fs})"
+    else:
+        ex = "XBad" if kind == "Bad" else "XEnc"
+    return f"({coq_bytes(arch)}, {lz_rows(calls)}, {crct}, {ex})", kind
+
+
+def reassemble(area, hb, fix_crc=True):
+    sig = Z._sig(len(area), hb)
+    if not fix_crc:
+        sig = sig[:28] + b"\x00\x00\x00\x00"
+        tail = sig[12:32]
+        sig = sig[:8] + Z.u32(zlib.crc32(tail)) + tail
+    return sig + area + hb
+
+
+INTERESTING = [0, 1, 2, 3, 4, 5, 6, 7, 8, 9, 10, 11, 12, 13, 14, 15, 17, 21, 23, 0x80, 0xC0, 0xE0, 0xFF, 0x20, 0x21, 0x10]
+
+
+def mutate_bytes(rng, hb):
+    hb = bytearray(hb)
+    for _ in range(rng.randint(1, 3)):
+        op = rng.choice(["set", "set", "flip", "insert", "delete", "truncate"])
+        if not hb:
+            break
+        i = rng.randrange(len(hb))
+        if op == "set":
+            hb[i] = rng.choice(INTERESTING)
+        elif op == "flip":
+            hb[i] ^= 1 << rng.randrange(8)
+        elif op == "insert":
+            hb.insert(i, rng.choice(INTERESTING))
+        elif op == "delete":
+            del hb[i]
+        else:
+            del hb[rng.randrange(len(hb)):]
+    return bytes(hb)
+
 # ----------------------------------------------------------------------------- property oracle
 def check_members(ctx, key, what, fmt, desc, members, arch, apath, empties_expected=True, skip_idx=None):
     """read_archive(arch) must equal the direct extraction of each supported visible member, in order.
@@ -516,8 +648,10 @@ def run(ctx):
         "oracles (Section variables in the theorems, recorded from the real libraries in the correspondence): lzma "
         "FORMAT_ALONE/FORMAT_RAW decompression, zipfile.infolist/read, tarfile.getmembers/extractfile, "
         "router.is_supported_file/get_extractor and the member extractors, str.lower",
-        "7z header byte parsing (_read_number, property ids, bit vectors, UTF-16 names) is NOT modelled: the model starts "
-        "from the header structure the harness's writer serialised (writer validated against libarchive 3.8)",
+        "7z header byte parsing is modelled (coq/C10/Parse.v, fuel-explicit) and tied by a differential run on written, "
+        "mutated and encoded headers (parsed reader state and error class compared); termination is proved; the "
+        "parse-after-serialise round trip is NOT proved, so C10_7z_members_exact still starts from the header structure "
+        "the harness's writer serialised (writer validated against libarchive 3.8); struct.unpack and zlib.crc32 are oracles",
         "the temporary directory of the 7z path is modelled as a name->bytes map (path confinement is C09)",
     ]
     ctx.assumptions += ["member names are normalised relative POSIX paths (C09 covers hostile names)",
@@ -525,15 +659,16 @@ def run(ctx):
     gen_tables(ctx)
 
     # ---- proofs
-    ctx.prove("C10/Props.v", ["C10/Proofs.vo"], expected=[
+    ctx.prove("C10/Props.v", ["C10/Proofs.vo", "C10/Term.vo"], expected=[
+        "C10_7z_parse_terminates", "C10_7z_end_header_terminates",
         "C10_7z_members_exact", "C10_7z_hypothesis_satisfiable", "C10_7z_members_exact_no_substreams",
         "C10_7z_multi_folder_refuted", "C10_7z_no_substreams_refuted", "C10_7z_empty_file_refuted",
         "C10_7z_corrupt_member_local_refuted", "C10_zip_members_exact", "C10_tar_members_exact",
         "C10_zip_corrupt_member_local", "C10_zip_corrupt_member_local_refuted", "C10_tar_member_local",
-        "C10_detect_magic", "C10_detect_tar_partial", "C10_routes"])
+        "C10_detect_magic", "C10_detect_tar", "C10_detect_tar_fallback", "C10_routes"])
     ctx.prove("C10/Inst.v", ["Gen/C10Tables.vo", "C10/Corr.vo", "C10/Spec.vo"], expected=[
         "C10_tables_wf", "C10_magic_routes", "C10_coder_ids", "C10_detect_tar_shadowed_refuted",
-        "C10_detect_tar_partial_satisfiable"])
+        "C10_detect_magic_satisfiable", "C10_prop_ids"])
 
     # which revision does the tree under test implement?  The model follows the REPAIRED code (rev_new); the
     # correspondence therefore breaks on an unrepaired tree and the property oracle below names the input.
@@ -621,6 +756,55 @@ def run(ctx):
         check_members(ctx, f"7z-corrupt-folder-aborts-archive:{kind}" if kind != "copy" else "7z-corrupt-member:copy",
                       "a corrupt 7z member affects other members", "7z", desc, members, arch, "c.7z",
                       empties_expected=False, skip_idx=datas[k])
+
+
+    # ================================================================= 7z byte-level header parser (model: C10/Parse.v)
+    casesp, infop = [], []
+
+    def add_parse_case(arch, what):
+        term, kind = parse_case(arch)
+        ctx.case(("7z-parse", what, len(arch), kind), True, kind=f"7z-parse:{what}:{kind}")
+        if term is not None:
+            casesp.append(term)
+            infop.append((what, kind, arch.hex()[:200]))
+    for i in range(ctx.n(70, 700)):
+        members = gen_members(rng, 5)
+        if rng.random() < 0.5:
+            arch, H, desc = seven_std(rng, members)
+        else:
+            arch, H, desc = seven_odd(rng, members)
+        H = dict(H)
+        H["attr_external_byte"] = rng.random() < 0.5
+        area = b"".join([])  # pack area is irrelevant for header parsing, but keep the real one
+        off = struct.unpack("<Q", arch[12:20])[0]
+        area = arch[32:32 + off]
+        hb = Z.header_bytes(H)
+        add_parse_case(reassemble(area, hb), "written")
+        for _ in range(2):
+            add_parse_case(reassemble(area, mutate_bytes(rng, hb)), "mutated-header")
+        if rng.random() < 0.3:
+            add_parse_case(reassemble(area, mutate_bytes(rng, hb), fix_crc=False), "bad-header-crc")
+        if rng.random() < 0.3:
+            whole = bytearray(reassemble(area, hb))
+            whole[rng.randrange(min(32, len(whole)))] ^= 1 << rng.randrange(8)
+            add_parse_case(bytes(whole), "mutated-signature")
+        if rng.random() < 0.4:
+            a2 = Z.write_archive(H, area, encode_header=True)
+            add_parse_case(a2, "encoded-header")
+            off2 = struct.unpack("<Q", a2[12:20])[0]
+            add_parse_case(reassemble(a2[32:32 + off2], mutate_bytes(rng, a2[32 + off2:])), "mutated-encoded-header")
+        if rng.random() < 0.15:
+            # archive properties + additional streams info in front of the main streams info
+            extra = b"\x02" + b"\x19" + Z.num(3) + b"abc" + b"\x00"
+            hb2 = hb[:1] + extra + hb[1:]
+            add_parse_case(reassemble(area, hb2), "archive-properties")
+    # an AES-encoded header (7z -mhe=on): Encrypted7zError
+    aes = bytearray([0x17, 0x06]) + Z.num(0) + Z.num(1) + b"\x09" + Z.num(16) + b"\x00"
+    aes += b"\x07\x0b" + Z.num(1) + b"\x00" + Z.num(1) + bytes([4 | 0x20]) + b"\x06\xf1\x07\x01" + Z.num(2) + b"\x13\x00"
+    aes += b"\x0c" + Z.num(10) + b"\x00" + b"\x00"
+    add_parse_case(reassemble(b"\x00" * 16, bytes(aes)), "aes-encoded-header")
+    add_parse_case(b"", "empty-file")
+    add_parse_case(Z.MAGIC, "magic-only")
 
     # ================================================================= ZIP
     for i in range(ctx.n(120, 1200)):
@@ -728,7 +912,7 @@ def run(ctx):
         with Spy():
             out, term = drive(arch, apath)
         t = EXN.get(term, term)
-        if not shadow:
+        if True:
             casest.append("{| kt_open := %s; kt_apath := %s; kt_names := %s; kt_expect := (%s, %s) |}" % (
                 topen, coq_opt(apath, coq_str), c_names([m[0] for m in withsym]), c_calls(list(out)), c_term(t)))
             infot.append((comp, corrupt, [m[0] for m in withsym]))
@@ -767,6 +951,9 @@ def run(ctx):
               write_tar([("a.txt", "data", b"x")], "bz2"), write_tar([("a.txt", "data", b"x")], "xz"),
               write_tar([], ""), Z.pack([("a.txt", "data", b"x")], [1], "copy")[0], Z.pack([], [], "copy")[0]):
         heads.append(a[:700])
+    for nm in ("BZ_report.txt", "PK\x03\x04x.txt", "\x1f\x8b.txt", "plain.txt"):
+        heads.append(write_tar([(nm, "data", b"x")], "", tarfile.GNU_FORMAT)[:700])
+    heads.append(b"PK\x03\x04" + b"\0" * 253 + b"ustar" + b"\0" * 250)
     for _ in range(ctx.n(150, 3000)):
         base = bytearray(rng.choice(heads))
         for _ in range(rng.randint(0, 2)):
@@ -778,7 +965,12 @@ def run(ctx):
     casesd = []
     for h in heads:
         got = det(io.BytesIO(h))
-        casesd.append(f"({coq_bytes(h)}, {coq_opt(got, coq_str)})")
+        try:  # tarfile oracle: is the first block a member header with a valid checksum?
+            tarfile.TarInfo.frombuf(h[:512], tarfile.ENCODING, "surrogateescape")
+            blk = True
+        except tarfile.HeaderError:
+            blk = False
+        casesd.append(f"({coq_bytes(h)}, {coq_bool(blk)}, {coq_opt(got, coq_str)})")
         ctx.case(("detect", h[:8], len(h)), True, kind="detect")
     routes = []
     for ty in ["zip", "7z", "tar", "tar.gz", "tar.bz2", "tar.xz", "rar", ""]:
@@ -797,9 +989,10 @@ def run(ctx):
         if failing and info:
             ctx.extra[f"corr_{name}_disagreements"] = [str(info[i])[:300] for i in failing[:10]]
     corr("sevenzip", "(corr7 T)", cases7, "case7", info7, 40)
+    corr("sevenzip_header_parser", "(corrp T)", casesp, "bytes * lz_table * crc_table * pexpect", infop, 40)
     corr("zip", "(corrz T)", casesz, "casez", infoz, 60)
     corr("tar", "(corrt T)", casest, "caset", infot, 60)
-    corr("detect", "(corrd T)", casesd, "bytes * option str", heads, 200)
+    corr("detect", "(corrd T)", casesd, "bytes * bool * option str", heads, 200)
 
 
 META = {
